@@ -1,8 +1,8 @@
 (* Extract.v (group "start") — the start-up/shutdown model of C15 as an OCaml oracle. *)
-(* deps: StartModel.vo StartPathModel.vo StartSearchModel.vo Bytes.vo *)
+(* deps: StartModel.vo StartPathModel.vo StartSearchModel.vo StartLogModel.vo Bytes.vo *)
 Require Extraction.
 Require Import ExtrOcamlBasic.
-From MV Require Import Bytes StartModel StartPathModel StartSearchModel.
+From MV Require Import Bytes StartModel StartPathModel StartSearchModel StartLogModel.
 From MV.gen Require Import GenStart.
 Extraction Language OCaml.
 Extraction "model.ml"
@@ -13,4 +13,5 @@ Extraction "model.ml"
   lock_cmd_nonblocking lock_type_exclusive lock_whole_file lock_busy_exits
   cprog cinit crun cstep cobs_proc cnames is_sock name_listener name_lock_holder name_content refuses bind_name lock_name_of
   sun_path_cap sock_copy_size sock_len_bound lock_name_max
-  xstep xrun two_bound bound known_overlap state_key lock_getlk_first lock_getlk_held_exits.
+  xstep xrun two_bound bound known_overlap state_key lock_getlk_first lock_getlk_held_exits
+  log_created_mode log_accepts.
